@@ -2,7 +2,7 @@
 From Coq Require Import String.
 From Coq Require Import ZArith List Bool.
 From LasV Require Import Lib.Base Lib.Layout Gen.GenHeaderLayout Gen.GenFormatBits Gen.GenDims Model.Las Model.LasSpec
-  Proofs.HeaderLen Proofs.VlrProofs Proofs.HeaderProofs Proofs.WriterProofs Proofs.RoundTripProofs.
+  Model.LasFast Proofs.HeaderLen Proofs.VlrProofs Proofs.HeaderProofs Proofs.WriterProofs Proofs.RoundTripProofs Proofs.AppendProofs Proofs.LasFastProofs.
 Import ListNotations.
 Open Scope list_scope.
 Open Scope Z_scope.
@@ -29,7 +29,7 @@ Print Assumptions C01_roundtrip.
 (* records of the right length are recovered from their concatenation whatever their bytes *)
 Theorem C01_records : forall ps recs, (0 < ps)%nat -> Forall (fun r => length r = ps) recs ->
   forall fuel, (length (concat recs) <= fuel)%nat -> chunks_of fuel ps (concat recs) = recs.
-Proof. exact chunks_of_concat. Qed.
+Proof. exact RoundTripProofs.chunks_of_concat. Qed.
 Print Assumptions C01_records.
 
 (* the header codec on its own: every field in its domain survives *)
@@ -45,3 +45,18 @@ Theorem C01_header : forall h vl es h' bs rest,
     /\ abytes (rh_fields rh) "extra_vlr_bytes" = abytes h' "extra_vlr_bytes".
 Proof. exact dec_enc_header. Qed.
 Print Assumptions C01_header.
+
+(* writing the object that was read back produces the same file, byte for byte *)
+Theorem C01_rewrite_idempotent : forall ap, ap_ok ap -> (forall s o x, 0 <= ap s o x) ->
+  forall h vl fmt recs evl f lf,
+  wf_las ap h vl fmt recs evl ->
+  file_of ap h vl fmt recs evl = Ok f -> read_file f = Ok lf ->
+  file_of ap (rh_fields (lf_h lf)) (rh_vlrs (lf_h lf)) (rh_fmt (lf_h lf)) (lf_points lf)
+          (match rh_evlrs (lf_h lf) with Some l => l | None => [] end) = Ok f.
+Proof. exact rewrite_idempotent. Qed.
+Print Assumptions C01_rewrite_idempotent.
+
+(* the reader run against the implementation (clamped lengths) is the reader of the theorems *)
+Theorem C01_executable_twin : forall src, read_file_f src = read_file src.
+Proof. exact read_file_f_eq. Qed.
+Print Assumptions C01_executable_twin.
